@@ -154,6 +154,39 @@ def case(item):
     return res
 
 
+def large_case(item):
+    """Larger trees (8 and 12 clones, deep and wide, with outliers): closed-form model with the O(G^2) recursion data term."""
+    par, kind, alpha, seed = item
+    from phyclone.tree import FSCRPDistribution, TreeJointDistribution, Tree
+    from mc.checks.c02 import forest_state
+
+    K = len(par)
+    state, n_in = forest_state(par, [1 + (i % 3 == 1) for i in range(K)])
+    state = (state[0], frozenset([n_in, n_in + 1]))
+    data = oracle.make_data(n_in + 2, dims=2, grid=5, kind=kind, seed=seed, outlier_prob=0.3, het=True)
+    res = {"item": item, "problems": [], "evals": 0, "worst": 0.0}
+    td = TreeJointDistribution(FSCRPDistribution(alpha))
+    try:
+        trees = {"post-order": oracle.build(state, data), "reversed+relabel": oracle.build(state, data, reverse_siblings=True)}
+        trees["reversed+relabel"].relabel_nodes()
+        trees["from_dict"] = Tree.from_dict(trees["post-order"].to_dict())
+        want = {"log_p": oracle.ref_log_joint(state, data, alpha, "marginal"), "log_p_one": oracle.ref_log_joint(state, data, alpha, "one")}
+        for nm, t in trees.items():
+            both = td.compute_both_log_p_and_log_p_one(t)
+            for label, g in (("log_p", float(td.log_p(t))), ("log_p_one", float(td.log_p_one(t))), ("fused log_p", float(both[0])), ("fused log_p_one", float(both[1]))):
+                w = want[label.replace("fused ", "")]
+                res["evals"] += 1
+                res["worst"] = max(res["worst"], abs(g - w) / (1 + abs(w)))
+                if not abs(g - w) <= 1e-8 * (1 + abs(w)):
+                    res["problems"].append("%s: %s = %.12g, model = %.12g (forest %r)" % (nm, label, g, w, list(par)))
+        h = {hash(t) for t in trees.values()}
+        if len(h) != 1 or not all(a == b for a in trees.values() for b in trees.values()):
+            res["problems"].append("builds of the same large tree do not compare/hash equal")
+    except Exception as e:
+        res["problems"].append("raised %s: %s" % (type(e).__name__, str(e)[:150]))
+    return res
+
+
 def identity_cross(n):
     """a == b <=> same abstract state, over one representative per state (all pairs)."""
     data = oracle.make_data(n, grid=3, outlier_prob=0.2)
@@ -220,6 +253,17 @@ def main(tier, seed):
                           {"tree": oracle.fmt_state(s), "data": kind, "outlier_prior": opm, "problem": pr}, {"item": list(r["item"])})
         if len(chk.samples) < 3 and n == 3 and len(s[0]) == 3:
             chk.sample({"tree": oracle.fmt_state(s), "data": kind, "outlier_prior": opm, "density_evaluations": r["evals"]})
+    from mc.checks.c02 import large_forests
+
+    litems = [(par, kind, a, seed) for par in large_forests() for kind, a in (("generic", 0.3), ("peaked", 2.5))]
+    for r in pool_imap(large_case, litems, chunksize=2):
+        chk.evaluations += r["evals"]
+        chk.transitions += r["evals"]
+        chk.states.add(("large", r["item"][0]))
+        chk.nontrivial.add(("large", r["item"][0], r["item"][1]))
+        chk.worst("worst_relative_error", r["worst"])
+        for pr in r["problems"][:2]:
+            chk.violation({"sub": "density-large", "what": pr.split(":")[1].split("=")[0].strip()[:30] if "=" in pr else pr[:30]}, {"problem": pr}, {"large": [list(r["item"][0]), r["item"][1], r["item"][2], r["item"][3]]})
     for n in ((2, 3) if tier == "quick" else (2, 3, 4)):
         probs, pairs = identity_cross(n)
         chk.evaluations += pairs
@@ -232,6 +276,10 @@ def main(tier, seed):
 def replay(path):
     body = json.load(open(path))
     rp = body["replay"]
+    if "large" in rp:
+        r = large_case((tuple(rp["large"][0]), rp["large"][1], rp["large"][2], rp["large"][3]))
+        print(r["problems"])
+        return 1 if r["problems"] else 0
     if "identity_n" in rp:
         probs, _ = identity_cross(rp["identity_n"])
         print(probs)
